@@ -52,6 +52,11 @@ def check_next(ctx, F, hty, size_off, label, rule_prefix="T"):
         g = ptr == ("ptrop", "add", ("asptr", buf), off, 1)
         facts = A.g.facts_at(bb)
         g2 = any(N(f) == ("cmp", "Lt", off, ("len", buf)) for f in facts)
+        if not g2:
+            # e.g. `if off == len { return None }  if off > len { panic!() }`: entailed, not literally present
+            raw_off = raw_field(A, "next_tag_offset", itf, it[0])
+            raw_buf = raw_field(A, "buffer", itf, it[0])
+            g2 = G.entails(facts, ("cmp", "Lt", raw_off, ("len", raw_buf))) is not None
         ctx.check(g, rule_prefix + "2", label + ":header-address", "the tag header is read at buffer.as_ptr() + offset (bytes)", A.site(bb), how=G.show(ptr), why=G.show(ptr))
         ctx.check(g2, rule_prefix + "4", label + ":assert", "offset < buffer.len() is a fact where the raw header pointer is formed (the failing edge panics)", A.site(bb),
                   how="assert dominates the unsafe block", why="facts %s" % [G.show(f)[:80] for f in facts])
@@ -90,7 +95,16 @@ def check_next(ctx, F, hty, size_off, label, rule_prefix="T"):
     if somes:
         pl = N(somes[0].payload)
         why3 = G.show(somes[0].payload)[:300]
-        if pl[0] == "unwrap" and pl[1][0] == "call" and pl[1][1] == "multiboot2_common::DynSizedStructure::<%s>::ref_from_slice" % hty:
+        rfs_key = "multiboot2_common::DynSizedStructure::<%s>::ref_from_slice" % hty
+        # ref_from_slice(..).unwrap() / .expect(..) / `match .. { Ok(t) => t, Err(e) => panic!(..) }`: the Ok payload, the Err path diverging
+        rfs_call = None
+        if pl[0] == "unwrap" and pl[1][0] == "call" and pl[1][1] == rfs_key:
+            rfs_call = pl[1]
+        elif pl[0] == "fld" and pl[2] == 0 and pl[1][0] == "dc" and pl[1][2] == 0 and pl[1][1][0] == "call" and pl[1][1][1] == rfs_key and \
+                CH.guarded_by_variant(somes[0].facts, pl[1][1], 0):
+            rfs_call = pl[1][1]
+        if rfs_call is not None:
+            pl = ("unwrap", rfs_call)
             sl = pl[1][2][0]
             if sl[0] == "call" and cn(sl[1]) == "core::slice::index::index" and sl[2][0] == buf:
                 rg = sl[2][1]
@@ -113,8 +127,10 @@ def raw_field(A, name, itf, it_adt):
 
 def raw_term_of_range_end(A, some_exit):
     """raw (un-normalised) term of the range end inside the Some payload"""
-    t = G.strip(some_exit.payload)          # unwrap(call ref_from_slice(index(buf, Range(a,b))))
+    t = G.strip(some_exit.payload)          # unwrap(call ref_from_slice(index(buf, Range(a,b))))  or  (call .. as Ok).0
     call = t[1]
+    if t[0] == "fld":
+        call = G.strip(t[1][1])
     idx = G.strip(call[2][0])
     rg = G.strip(idx[2][1])
     return rg[2][1]
